@@ -18,7 +18,7 @@ from typing import TYPE_CHECKING, Generator, Optional, Union
 
 from icalendar.cal import Alarm, Event, Todo
 from icalendar.timezone import tzp
-from icalendar.tools import is_date, normalize_pytz, to_datetime
+from icalendar.tools import is_date, is_pytz, normalize_pytz, to_datetime
 
 if TYPE_CHECKING:
     from datetime import datetime
@@ -336,7 +336,12 @@ class Alarms:
         """Create an alarm time with the additional attributes."""
         if getattr(trigger, "tzinfo", None) is None and self._local_tzinfo is not None:
             # a date has no timezone: it starts at midnight in the local timezone
-            trigger = normalize_pytz(to_datetime(trigger).replace(tzinfo=self._local_tzinfo))
+            trigger = to_datetime(trigger)
+            if is_pytz(self._local_tzinfo):
+                # replace(tzinfo=...) would use the zone's first (LMT) offset
+                trigger = self._local_tzinfo.localize(trigger)
+            else:
+                trigger = trigger.replace(tzinfo=self._local_tzinfo)
         return AlarmTime(alarm, trigger, self._last_ack, self._snooze_until, self._parent)
 
     def _get_absolute_alarm_times(self) -> list[AlarmTime]:
